@@ -549,6 +549,73 @@ func (w *world) snapshotCheck(ri int) {
 	w.evs = append(w.evs, fmt.Sprintf("ERecv %s %s %s %s %s", gNat(ri), gOps(cont), gBool(true), func() string { v, _ := r.view(); return v }(), func() string { _, s := r.view(); return s }()))
 	w.desc = append(w.desc, fmt.Sprintf("r%d and its restored copy receive %d operations of r%d", ri, len(cont), other.idx))
 	w.broken = true // r has applied operations that are not in the log yet: the history ends here
+	// ... and the same LOCAL calls on both (the model is not told: the history has ended; original against restored):
+	// plain calls, valid and invalid, then a user transaction that is aborted, then one more call
+	w.localContinuation(r, fresh)
+}
+
+// localContinuation runs the same local calls on the original and on the instance restored from its snapshot and
+// compares outcome, readable state, size and exported snapshot after each (C10: every later LOCAL operation too)
+func (w *world) localContinuation(r, fresh *replica) {
+	same := func(what string) bool {
+		v1, s1 := r.view()
+		v2, s2 := fresh.view()
+		if v1 != v2 || s1 != s2 {
+			w.c.Violate("C10", "local-continuation-differs-"+w.kind, fmt.Sprintf("%s: after %s the original reads %s (size %s) and the restored instance %s (size %s)", w.kind, what, r.viewJSON(), s1, fresh.viewJSON(), s2), w.desc)
+			return false
+		}
+		_, e1, _ := r.dt.GetMetaAndSnapshot()
+		_, e2, _ := fresh.dt.GetMetaAndSnapshot()
+		if gSnapshot(w.kind, e1) != gSnapshot(w.kind, e2) {
+			w.c.Violate("C10", "local-continuation-snapshot-differs-"+w.kind, fmt.Sprintf("%s: after %s the snapshots of the original and of the restored instance differ: %s vs %s", w.kind, what, string(e1), string(e2)), w.desc)
+			return false
+		}
+		return true
+	}
+	both := func(cs callSpec) bool {
+		var r1, r2 string
+		var e1, e2 error
+		p1, _ := guarded(func() { r1, e1 = cs.run(r) })
+		p2, _ := guarded(func() { r2, e2 = cs.run(fresh) })
+		w.c.Count("local-continuation-calls")
+		if obsOf(r1, e1, p1) != obsOf(r2, e2, p2) {
+			w.c.Violate("C10", "local-continuation-outcome-differs-"+w.kind, fmt.Sprintf("%s: %s gives %s on the original and %s on the restored instance", w.kind, cs.desc, obsOf(r1, e1, p1), obsOf(r2, e2, p2)), w.desc)
+			return false
+		}
+		return same(cs.desc)
+	}
+	for k := 0; k < 3; k++ {
+		if !both(w.rndCall(r)) {
+			return
+		}
+	}
+	// an aborted user transaction on both
+	inner := []callSpec{w.rndCall(r), w.rndCall(r)}
+	abort := func(x *replica) {
+		body := func(sub *replica) error {
+			for _, cs := range inner {
+				guarded(func() { _, _ = cs.run(sub) })
+			}
+			return fmt.Errorf("abort")
+		}
+		guarded(func() {
+			switch w.kind {
+			case "counter":
+				_ = x.ctr.Transaction("c10", func(c orda.CounterInTx) error { sub := *x; sub.ctr = txCounter{c, x.ctr}; return body(&sub) })
+			case "map":
+				_ = x.mp.Transaction("c10", func(m orda.MapInTx) error { sub := *x; sub.mp = txMap{m, x.mp}; return body(&sub) })
+			case "list":
+				_ = x.li.Transaction("c10", func(l orda.ListInTx) error { sub := *x; sub.li = txList{l, x.li}; return body(&sub) })
+			}
+		})
+	}
+	abort(r)
+	abort(fresh)
+	w.c.Count("local-continuation-aborts")
+	if !same("an aborted transaction {" + inner[0].desc + "; " + inner[1].desc + "}") {
+		return
+	}
+	both(w.rndCall(r))
 }
 
 // ---------- events ----------
